@@ -1,5 +1,6 @@
 import Mc.Drv.Common
 import Mc.Sync.Decorator
+import Mc.Sync.Rolling
 /- Driver side of the sync traces: parsing, replay of the model against the recorded calls. -/
 namespace Mc.Drv
 
@@ -101,13 +102,23 @@ def matchesReq (q : Req) (r : Rec) : Bool :=
   | .api v t _ _ => !r.isHook && r.verb == v.name && r.group == t.group && r.resource == t.resource && r.ns == t.ns && r.name == t.name
   | .hook n _ => r.isHook && r.hook == n
 
-def consume (q : Req) : List (Rec × Bool) → Option (Rec × List (Rec × Bool))
+def consumeWith (p : Rec → Bool) : List (Rec × Bool) → Option (Rec × List (Rec × Bool))
   | [] => none
   | (r, used) :: rest =>
-      if !used && matchesReq q r then some (r, (r, true) :: rest)
-      else match consume q rest with
+      if !used && p r then some (r, (r, true) :: rest)
+      else match consumeWith p rest with
         | some (x, rest') => some (x, (r, used) :: rest')
         | none => none
+
+/-- next unconsumed recorded call with the identity of `q`; hook calls of one sync run in parallel,
+    so a recorded call with exactly the model's request is preferred -/
+def consume (q : Req) (recs : List (Rec × Bool)) : Option (Rec × List (Rec × Bool)) :=
+  match q with
+  | .hook _ req =>
+      match consumeWith (fun r => matchesReq q r && req.eqv r.hookReq) recs with
+      | some x => some x
+      | none => consumeWith (matchesReq q) recs
+  | _ => consumeWith (matchesReq q) recs
 
 def reqText (q : Req) : String :=
   match q with
